@@ -13,7 +13,8 @@ RULE = (
     "Convert, arithmetic on simple and derived (power) quantities, IsValid, FindUnitCase, GetDefaultCategory), failing lookups (unknown unit, unit of another "
     "type, unknown category) and registrations (AddUnitBase, AddUnit, AddCategory new / overriding / with another "
     "quantity type / from_category) on a warm database - a small generated one, and the shipped POSC table plus "
-    "generated registrations. Oracle (differential + invariant): the outcome of every operation (value repr or exception "
+    "generated registrations; another database that uses the same names with other meanings is alive and is asked every "
+    "question first. Oracle (differential + invariant): the outcome of every operation (value repr or exception "
     "class) equals the outcome of the same operation asked first on a database freshly rebuilt from the accepted "
     "registrations; the full registry snapshot (all public getters, both conversion functions sampled) is identical "
     "before and after every read-only or failing step. Non-trivial = a query preceded by a failing lookup of the same "
@@ -162,6 +163,33 @@ class Machine:
         self.fresh_snap = None
         self.history = {}  # key of query -> set of preceding event kinds
         self.events = []
+        self.decoy = self.make_decoy()
+
+    def make_decoy(self):
+        """another database alive at the same time that uses the same names with other meanings; it is asked
+        every question first - its answers must leave no trace in the warm database"""
+        from barril.units import UnitDatabase
+
+        d = UnitDatabase()
+        if self.base_kind == "small":
+            regs = [
+                ["base", "L", "second", "s"], ["unit", "L", "minute", "min", "x/60.0", "x*60.0", None], ["unit", "L", "zz unit", "zz", "%f*3.0", "%f/3.0", None],
+                ["base", "T", "metre", "m"], ["unit", "T", "centimetre", "cm", "%f*100.0", "%f/100.0", None], ["unit", "T", "kilometre", "km", "@k1", "@k2", None], ["unit", "T", "mm", "mm", "%f*1000.0", "%f/1000.0", None],
+                ["cat", "L", {"quantity_type": "L"}], ["cat", "T", {"quantity_type": "T"}], ["cat", "depth", {"quantity_type": "L", "min_value": 5.0, "default_value": 6.0}],
+                ["cat", "x", {"quantity_type": "T"}], ["cat", "moles", {"quantity_type": "T"}], ["cat", "nope", {"quantity_type": "L"}],
+            ]
+        else:
+            regs = [
+                ["base", "length", "second", "s"], ["unit", "length", "minute", "min", "x/60.0", "x*60.0", None], ["unit", "length", "zz unit", "zz", "%f*3.0", "%f/3.0", None], ["unit", "length", "bvu", "bvu", "%f*7.0", "%f/7.0", None],
+                ["base", "time", "metre", "m"], ["unit", "time", "centimetre", "cm", "%f*100.0", "%f/100.0", None], ["unit", "time", "kilometre", "km", "@k1", "@k2", None], ["unit", "time", "foot", "ft", "%f*2.0", "%f/2.0", None],
+                ["base", "temperature", "pascal", "Pa", ], ["unit", "temperature", "psi", "psi", "%f*2.0", "%f/2.0", None],
+                ["base", "pressure", "kelvin", "K"], ["unit", "pressure", "celsius", "degC", "%f-1.0", "%f+1.0", None],
+                ["cat", "length", {"quantity_type": "length"}], ["cat", "depth", {"quantity_type": "time"}], ["cat", "time", {"quantity_type": "time"}],
+                ["cat", "temperature", {"quantity_type": "temperature"}], ["cat", "pressure", {"quantity_type": "pressure"}], ["cat", "bv cat", {"quantity_type": "temperature"}], ["cat", "nope", {"quantity_type": "length"}],
+            ]
+        for r in regs:
+            c14.real_apply(d, r)
+        return d
 
     def fresh(self):
         from barril.units import UnitDatabase
@@ -215,6 +243,8 @@ class Machine:
         # small databases: the full snapshot around every step; POSC base: a structural fingerprint around every
         # step and the full snapshot against a fresh rebuild at the end of the sequence (run())
         snap = snapshot.registry if self.base_kind == "small" else snapshot.registry_light
+        with env.pushed(self.decoy):
+            query(self.decoy, q)  # outcome irrelevant
         before = snap(self.warm)
         ctx.ev()
         with env.pushed(self.warm):
